@@ -383,6 +383,13 @@ def first_foreign_lhs(P, gi):
     return 0
 
 
+def swapped(P):
+    """did the target take over another allocation (move assignment swaps)?  The root handle stays the same,
+    the gradient base of the allocation does not."""
+    r = P.geoms[0].root
+    return P.after is not None and r in P.mems and P.after.root == P.after.h and P.memafter.gbase != P.mems[r].gbase
+
+
 def to_model(w, P, W):
     """-> (model line, compare) or None when the statement is outside the modelled fragment.
     compare = ('all', root) : whole allocation image, or ('view', Geom): only the cells the view addresses"""
@@ -404,7 +411,7 @@ def to_model(w, P, W):
         if k == "eval":
             e = M.expr(d["e"])
             a = P.after
-            if a.root != P.geoms[0].root:
+            if swapped(P):
                 # move assignment swapped: the temporary filled by eval() IS the target's new allocation
                 sid = M.new_sto(P.memafter.gbase, P.memafter.n)
                 t = M.view_raw(sid, a.off, a.dims, a.strides)
@@ -694,10 +701,14 @@ class Oracle:
             writes = [(g.root, g.addr(t[2]), self.ev(d["e"], P, ()))]
             tg = g
         a = P.after
-        if k == "eval" and a.root != tg.root:
-            # the target took over the array eval() returned (move assignment): same elements, new allocation
+        sw = k == "eval" and swapped(P)
+        if sw:
+            # the target took over the array eval() returned (move assignment): same elements, new allocation;
+            # the cells it had at the start of the recording are gone
             self.mem[a.root] = [Dual(c) for c in P.memafter.cells]
             self.gb[a.root] = P.memafter.gbase
+            for key in [q for q in self.inputs if q[0] == a.root]:
+                del self.inputs[key]
             writes = [(a.root, a.addr(ix), v) for (ix, v) in vals]
         for r, ad, v in writes:
             self.mem[r][ad] = v
@@ -710,7 +721,7 @@ class Oracle:
         # judge: values of the whole allocation the target lives in, derivatives of every cell written
         root = a.root
         img = P.memafter
-        if k in ("rdim",) or (k == "eval" and a.root != tg.root):
+        if k in ("rdim",) or sw:
             cells = [ad for r, ad, _ in writes]
         else:
             cells = range(img.n)
